@@ -96,8 +96,9 @@ func c14Package(rng *rand.Rand, idx int) (rcase, []c14op) {
 						body.Ref = g.name()
 					}
 					o.Body = &dialect.Body{Content: "application/json", Schema: body.Dialect(&sp.CompSchemas), Required: true}
-					if rng.Intn(3) == 0 {
-						// a components.requestBodies entry (its schema defined in place unless the body is a schema $ref)
+					if (body.Ref == "" && len(sp.CompBodies) == 0) || rng.Intn(3) == 0 {
+						// a components.requestBodies entry (its schema defined in place unless the body is a schema $ref);
+						// the first body that is an object defined in place always becomes one
 						if sp.CompBodies == nil {
 							sp.CompBodies = map[string]dialect.Body{}
 						}
